@@ -125,13 +125,13 @@ pub fn check_query(mat: &Mat, pssm: &ScoringMatrix<Dna>, ex: &Exact, s: f64) -> 
         if st.pmax > 1.0 + EPS_P {
             fail("pmax > 1", format!("step {} (g={:e}) of approximate_pvalue({}): pmax {}", i, g, s, st.pmax));
         }
-        if st.pmin < lo - EPS_P {
+        if st.pmin < lo - exact::eps_rel(lo) {
             fail(
                 "pmin below P(S >= s+(M+1)g)",
                 format!("step {} (g={:e}) of approximate_pvalue({}): pmin {} < exact P(S >= s+{}g) = {}", i, g, s, st.pmin, m + 1, lo),
             );
         }
-        if st.pmax > hi + EPS_P {
+        if st.pmax > hi + exact::eps_rel(hi) {
             fail(
                 "pmax above P(S >= s-(M+2)g)",
                 format!("step {} (g={:e}) of approximate_pvalue({}): pmax {} > exact P(S >= s-{}g) = {}", i, g, s, st.pmax, m + 2, hi),
@@ -175,13 +175,13 @@ pub fn check_query(mat: &Mat, pssm: &ScoringMatrix<Dna>, ex: &Exact, s: f64) -> 
                             if p < -EPS_P || p > 1.0 + EPS_P {
                                 fail("pvalue outside [0,1]", format!("pvalue({}) = {}", s, p));
                             }
-                            if p < lo - EPS_P {
+                            if p < lo - exact::eps_rel(lo) {
                                 fail(
                                     "pvalue below P(S >= s+(M+1)g)",
                                     format!("pvalue({}) = {} (final g={:e}, margin {:e}) < exact {}", s, p, g, dl, lo),
                                 );
                             }
-                            if p > hi + EPS_P {
+                            if p > hi + exact::eps_rel(hi) {
                                 fail(
                                     "pvalue above P(S >= s-(M+2)g)",
                                     format!("pvalue({}) = {} (final g={:e}, margin {:e}) > exact {}", s, p, g, du, hi),
